@@ -280,6 +280,41 @@ fn bounded_work(rep: &Report, ids: &[Ident]) {
 fn primitive_surfaces(rep: &Report, ids: &[Ident]) {
     let seed = rep.seed;
     let rc = &ids[2];
+    // valid_file_format: every byte string of length 0..=5 over {e, g, k, 0x10, 0x20, 0x00, 0xff} (19 608 strings), and both
+    // magic numbers cut and extended by 0..4 bytes: Ok exactly for the two 4-byte magic numbers
+    {
+        let alpha = [0x65u8, 0x67, 0x6b, 0x10, 0x20, 0x00, 0xff];
+        let mut inputs: Vec<Vec<u8>> = vec![vec![]];
+        let mut level: Vec<Vec<u8>> = vec![vec![]];
+        for _ in 0..5 {
+            let mut next = vec![];
+            for w in &level {
+                for a in alpha {
+                    let mut x = w.clone();
+                    x.push(a);
+                    next.push(x);
+                }
+            }
+            inputs.extend(next.iter().cloned());
+            level = next;
+        }
+        for magic in [r::KEY_MAGIC, r::PASS_MAGIC] {
+            for ext in 0..=4usize {
+                let mut x = magic.to_vec();
+                x.extend(std::iter::repeat(0x41).take(ext));
+                inputs.push(x);
+            }
+        }
+        inputs.par_iter().for_each(|x| {
+            let want = x[..] == r::KEY_MAGIC[..] || x[..] == r::PASS_MAGIC[..];
+            if let Some(ok) = no_panic(rep, "valid_file_format", || json!({"kind":"file-format","bytes":hx(x)}), || kestrel_crypto::decrypt::valid_file_format(x).is_ok()) {
+                if ok != want {
+                    rep.violation("valid_file_format/wrong-verdict", json!({"kind":"file-format","bytes":hx(x)}), format!("valid_file_format({}) returned {}", hx(x), if ok { "Ok" } else { "Err" }));
+                }
+            }
+        });
+        rep.add_distinct(inputs.len() as u64);
+    }
     // noise_decrypt: every length 0..200 and large ones
     let pay = derive32(seed, "c09-pay");
     let m = r::noise_x_write(&r::XRoles::honest(&r::KEY_MAGIC, &ids[0].sk, &rc.pk, &derive32(seed, "c09-ne")), &pay).unwrap();
@@ -868,6 +903,10 @@ fn cli_hostile_keyrings(rep: &Report) {
         ("crlf".into(), format!("[Key]\r\nName = mallory\r\nPublicKey = {}\r\n", flip_char(pk, 7))),
         ("nul-in-value".into(), format!("[Key]\nName = mal\0lory\nPublicKey = {}\n", flip_char(pk, 7))),
     ];
+    // long runs of lines the parser skips (a parser that recurses per skipped line runs out of stack)
+    entries.push(("200000-blank-lines".into(), "\n".repeat(200_000)));
+    entries.push(("200000-comment-lines".into(), "#\n".repeat(200_000)));
+    entries.push(("200000-blank-and-comment-lines-alternating".into(), "\n# c\n".repeat(100_000)));
     entries.push(("benign".into(), format!("[Key]\nName = mallory\nPublicKey = {}\n", pk)));
     let ops: Vec<(&str, Vec<&str>)> = vec![
         ("encrypt", vec!["encrypt", "plain.bin", "-t", "bob", "-f", "alice", "-k", "kr.txt", "-o", "out.bin", "--env-pass"]),
@@ -914,7 +953,7 @@ fn cli_hostile_keyrings(rep: &Report) {
 pub fn run(rep: &'static Report) {
     rep.set_rule("E-GRID per untrusted-input surface (all byte strings of length <= 2, every prefix of authentic files, every message length for noise_decrypt and the AEAD wrappers, every length/character-class of key strings, hostile values of every header field under heap accounting) and E-PROC: every argument vector of length <= 3 (quick) / <= 4 (thorough) over a 28-token vocabulary under two environments, as real processes. distinct non-trivial = distinct inputs per surface");
     rep.rule_add("CLI argument vectors and the per-slot value grid run as real processes; library compiled with overflow checks.");
-    rep.rule_add("Hostile keyrings: 27 entry shapes x 3 positions among genuine entries x {encrypt, decrypt with known sender, decrypt with unknown sender}, commands that otherwise complete.");
+    rep.rule_add("Hostile keyrings: 30 entry shapes (incl. runs of 200 000 skipped lines) x 3 positions among genuine entries x {encrypt, decrypt with known sender, decrypt with unknown sender}, commands that otherwise complete.");
     rep.assume("the keyring parser surface is enumerated by C17; all C03 graph states also run under the panic guard");
     rep.assume("stdin is /dev/null and the process has no controlling terminal (setsid), so prompts cannot block; wall limit 30 s per process");
     kra::note(rep);
@@ -933,6 +972,15 @@ pub fn run(rep: &'static Report) {
 pub fn replay(rep: &'static Report, case: &Value) {
     let ids = idents(rep.seed);
     match case["kind"].as_str().unwrap_or("") {
+        "file-format" => {
+            let x = unhx(case["bytes"].as_str().unwrap());
+            let want = x[..] == r::KEY_MAGIC[..] || x[..] == r::PASS_MAGIC[..];
+            match guarded(|| kestrel_crypto::decrypt::valid_file_format(&x).is_ok()) {
+                Ok(ok) if ok == want => println!("  valid_file_format({}) = {}", hx(&x), ok),
+                Ok(ok) => rep.violation("valid_file_format/wrong-verdict", case.clone(), format!("returned {}", ok)),
+                Err(m) => rep.violation("valid_file_format/panic", case.clone(), m),
+            }
+        }
         "endless-tail" => {
             println!("  re-running the bounded-work part of C09");
             bounded_work(rep, &idents(rep.seed));
